@@ -75,6 +75,45 @@ SPEC = {  # the property statement's table: injected rule violation -> published
 SIGNATURES = {"repeated_group_reordered": "C01-repeated-group-order-dependent"}
 
 
+# values tried on every takes-value tag with two or more value classes and on one tag of every value-class combination:
+# numbers, names, texts, dates, and texts that fail the word pattern of one class and the character list of another
+VALUE_POOL = ["3", "-3.5e2", ".5", "abc", "nm_1-x", "lou$d", "a.b", "x@y", "3 dB", "3dB", "some text 1", "Text: more.",
+              "2022-01-01T10:00:00", "2022-01-01", "1e", "a b$c", "-", "x+y", "0x1F", "3$"]
+
+
+def class_regex():
+    from harness import common
+    return json.loads((common.REPO / "hed/validator/util/class_regex.json").read_text(encoding="utf-8"))
+
+
+def ref_value_classes(rx, classes, value):
+    """Reading of the specification from class_regex.json (Python `re`, independent of the validator and of the model):
+    per class (word pattern matches, every character is of the class's character list)."""
+    import re
+    out = []
+    for c in classes:
+        word = rx["class_words"].get(c)
+        word_ok = True if not word else bool(re.match(word, value))
+        names = rx["class_chars"].get(c, [])
+        if names:
+            pat = re.compile("|".join(rx["char_regex"][n] for n in names))
+            chars_ok = all(pat.match(ch) for ch in value)
+        else:
+            chars_ok = True
+        out.append((word_ok, chars_ok))
+    return out
+
+
+def value_profile(per_class):
+    """(a) one class accepts the value fully; (b) word pattern of one class and character list of another are met but
+    no single class accepts; (c) nothing is met"""
+    if any(w and ch for w, ch in per_class):
+        return "a"
+    if any(w for w, _ in per_class) and any(ch for _, ch in per_class):
+        return "b"
+    return "c"
+
+
 def defs_for(v):
     """the definitions whose content tags exist in this vocabulary (none when it has no Def / Definition tag)"""
     shorts = {v.short(i) for i in range(len(v.long))}
@@ -314,6 +353,12 @@ class Gen:
         self.numeric = [i for i in self.val if v.attrs[i]["vc"] == ["numericClass"]]
         self.rc = [i for i in ok if v.attrs[i]["rc"] and not v.long[i].endswith("/#") and v.short(i) not in
                    {"Def", "Def-expand", "Definition"}]
+        self.multi = [i for i in self.val if len(v.attrs[i]["vc"]) >= 2]
+        combos = {}
+        for i in self.val:
+            combos.setdefault((tuple(v.attrs[i]["vc"]), bool(v.attrs[i]["uc"])), []).append(i)
+        self.combos = combos
+        self.rx = class_regex()
         self.by_short = {v.short(i): i for i in ok if not v.long[i].endswith("/#")}
         self.terms = {c.casefold() for n in v.long for c in n.split("/")}
         self.uid = 0
@@ -530,6 +575,14 @@ class Gen:
                 return None
             i = rng.choice(self.unit)
             self.put(tree, self.form(i) + "/" + rng.choice(c11.NUMS_OK) + " " + rng.choice(["zzunit", "qq", "xunits"]))
+        elif kind == "bad_value" and self.multi and rng.random() < 0.4:
+            # a tag with several value classes and a value no single class accepts (word pattern of one, characters of another)
+            i = rng.choice([j for j in self.multi if not v.attrs[j]["uc"]] or self.multi)
+            bad = [x for x in VALUE_POOL if value_profile(ref_value_classes(self.rx, v.attrs[i]["vc"], x)) != "a"
+                   and any(not w for w, _ in ref_value_classes(self.rx, v.attrs[i]["vc"], x))]
+            if not bad or v.attrs[i]["uc"]:
+                return None
+            self.put(tree, self.form(i) + "/" + rng.choice(bad))
         elif kind == "bad_value":
             if not self.numeric:
                 return None
@@ -647,6 +700,29 @@ class Gen:
         return text
 
 
+def value_class_cases(g):
+    """[(text, expectation)]: every takes-value tag with >= 2 value classes and one tag of every value-class combination of the
+    schema x VALUE_POOL; expectation = (accepted?, code an error must carry) from the reference reading, None for unit-class tags
+    (there the value is split first: model comparison only)"""
+    v, rng = g.v, g.rng
+    tags = list(g.multi)
+    for key, members in sorted(g.combos.items()):
+        tags.append(rng.choice(members))
+    out = []
+    for i in dict.fromkeys(tags):
+        classes = v.attrs[i]["vc"]
+        for value in VALUE_POOL:
+            text = g.form(i) + "/" + value
+            if v.attrs[i]["uc"] or not classes:
+                out.append((text, i, None, value))
+                continue
+            per = ref_value_classes(g.rx, classes, value)
+            prof = value_profile(per)
+            code = None if prof == "a" else ("VALUE_INVALID" if any(not w for w, _ in per) else "CHARACTER_INVALID")
+            out.append((text, i, (prof, code), value))
+    return out
+
+
 # ------------------------------------------------------------------------------------------ fuzz
 
 def fuzz_strings(rng, g, n):
@@ -676,6 +752,9 @@ def fuzz_strings(rng, g, n):
         parts = []
         for _ in range(rng.randint(1, 7)):
             q = rng.random()
+            if g.multi and rng.random() < 0.06:
+                parts.append(g.form(rng.choice(g.multi)) + "/" + rng.choice(VALUE_POOL + ["#", "", "3 s"]))
+                continue
             if q < 0.35:
                 i = rng.randrange(len(v.long))
                 t = g.form(i) if rng.random() < 0.8 else v.long[i]
@@ -830,6 +909,10 @@ def run_schema(ctx, name, n_grammar, n_fuzz, sweep):
                     continue
             for k in range(1, len(comps) + 1):
                 cases.append(("sweep", "conforming", "/".join(comps[-k:]) + tail, False, dd is not None))
+    vc_expect = {}
+    for text, i, exp, value in value_class_cases(g):
+        vc_expect[text] = (i, exp, value)
+        cases.append(("grammar", "valueclass", text, False, dd is not None))
     for s in FIXTURES + fuzz_strings(rng, g, n_fuzz):
         cases.append(("fuzz", "fuzz", s, rng.random() < 0.5, dd is not None))
     answers = run_cases(ctx, v, [(c[2], c[3]) for c in cases])
@@ -837,6 +920,8 @@ def run_schema(ctx, name, n_grammar, n_fuzz, sweep):
         if n_done % 2000 == 0:
             ctx.check_time()
         case = {"schema": name, "stream": stream, "kind": kind, "ph": ph, "text": text, "dict": needs_dict}
+        if kind == "valueclass":
+            case["vc"] = {"tag": v.long[vc_expect[text][0]], "value": vc_expect[text][2]}
         impl, exc = impl_validate(HedString, schema, text, ph, dd if needs_dict else None)
         interesting = kind != "conforming" or "(" in text
         ctx.case((name, ph, text, needs_dict), nontrivial=interesting,
@@ -853,6 +938,19 @@ def run_schema(ctx, name, n_grammar, n_fuzz, sweep):
             ctx.count("oracle:skipped-impl-raises")
             continue
         errs = [i for i in impl if i[2] < 10]
+        if kind == "valueclass":
+            ti, exp, _ = vc_expect[text]
+            combo = ",".join(v.attrs[ti]["vc"]) or "(none)"
+            ctx.count(f"valueclass:{name}:[{combo}]" + (":units" if v.attrs[ti]["uc"] else ""))
+            if exp is None:
+                continue
+            prof, code = exp
+            ctx.count("valueclass:profile-" + prof + (":multi-class" if len(v.attrs[ti]["vc"]) >= 2 else ""))
+            if prof == "a" and errs:
+                ctx.violation("value-accepted-by-one-class-reports-error", case, errs[:4])
+            elif prof != "a" and code not in {i[1] for i in errs}:
+                ctx.violation(f"value-accepted-by-no-single-class-not-reported-as-{code}", case, [i[:3] for i in impl][:6])
+            continue
         if kind == "conforming":
             ctx.count("conforming")
             if errs:
@@ -880,7 +978,7 @@ def run(ctx):
                      "casefold = ASCII lower-casing on the alphabet used (checked per batch)")
     ctx.extra["spec_table"] = SPEC
     if ctx.quick():
-        run_schema(ctx, "8.3.0", 3000, 5000, False)
+        run_schema(ctx, "8.3.0", 3000, 4700, False)
         run_schema(ctx, "8.2.0", 500, 1000, False)
         run_schema(ctx, "score_1.1.0", 250, 400, False)
     else:
@@ -914,7 +1012,19 @@ def replay(ctx, rec):
     print("model:", json.dumps(sorted((canon_model(i) for i in m["issues"]), key=json.dumps)), "raises:", m["raises"])
     print("impl: ", json.dumps(impl), "raised:", exc)
     compare(ctx, case.get("stream", "replay"), case, m, impl, exc)
-    if exc is None and case.get("stream") in ("grammar", "sweep"):
+    if exc is None and case.get("kind") == "valueclass":
+        ti = v.index[case["vc"]["tag"]]
+        if v.attrs[ti]["vc"] and not v.attrs[ti]["uc"]:
+            per = ref_value_classes(class_regex(), v.attrs[ti]["vc"], case["vc"]["value"])
+            prof = value_profile(per)
+            code = None if prof == "a" else ("VALUE_INVALID" if any(not w for w, _ in per) else "CHARACTER_INVALID")
+            errs = [i for i in impl if i[2] < 10]
+            print("reference:", v.attrs[ti]["vc"], "(word ok, characters ok) per class:", per, "profile", prof, "expected code", code)
+            if prof == "a" and errs:
+                ctx.violation("value-accepted-by-one-class-reports-error", case, errs[:4])
+            elif prof != "a" and code not in {i[1] for i in errs}:
+                ctx.violation(f"value-accepted-by-no-single-class-not-reported-as-{code}", case, [i[:3] for i in impl][:6])
+    elif exc is None and case.get("stream") in ("grammar", "sweep"):
         errs = [i for i in impl if i[2] < 10]
         kind = case["kind"]
         if kind == "conforming" and errs:
